@@ -172,6 +172,15 @@ pub(super) fn __add2(a: &mut [BigDigit], b: &[BigDigit]) -> BigDigit {
     let (c, done) = (false, 0);
 
     let mut carry = c as u8;
+    #[cfg(num_bigint_verif)]
+    {
+        if done > 0 {
+            crate::verif::hit(crate::verif::ADD_ASM);
+        }
+        if done < b.len() {
+            crate::verif::hit(crate::verif::ADD_TAIL);
+        }
+    }
 
     for (a, b) in a_lo[done..].iter_mut().zip(b[done..].iter()) {
         carry = adc(carry, *a, *b, a);
@@ -179,6 +188,8 @@ pub(super) fn __add2(a: &mut [BigDigit], b: &[BigDigit]) -> BigDigit {
 
     if carry != 0 {
         for a in a_hi {
+            #[cfg(num_bigint_verif)]
+            crate::verif::hit(crate::verif::ADD_PROP);
             carry = adc(carry, *a, 0, a);
             if carry == 0 {
                 break;
